@@ -31,7 +31,10 @@ PHYS_BASE = 1000
 
 
 class LinkBell(Enum):
-    """The link layer's own Bell-state numbering (the published one), independent of the repository's enum."""
+    """The link layer's own record of which Bell state a pair is in, independent of the repository's enum.  On the wire
+    it is reported the way the response's interface numbers it: a qlink-interface 1.0 response carries the member of
+    qlink_interface.BellState with that NAME (its numbering differs from netqasm's), a netqasm-native ("legacy")
+    response carries netqasm.qlink_compat.BellState."""
     PHI_PLUS = 0   # |00> + |11>
     PSI_PLUS = 1   # |01> + |10>
     PSI_MINUS = 2  # |01> - |10>
@@ -76,6 +79,9 @@ class FakeLink:
         self.reserved: Dict[int, set] = {}       # node -> physical qubits reserved for pairs in flight / not yet mapped
         self.validate_all = False
         self.validate = True
+        # injected fault kind: the link answers the first pair of a create request at once, from inside the stack's put()
+        # (the creator's controller has not booked the request yet when the response comes in)
+        self.eager = False
 
     def bump(self, k: str, n: int = 1) -> None:
         self.counters[k] = self.counters.get(k, 0) + n
@@ -140,7 +146,19 @@ class FakeLink:
             q = []
             self.gen_queues[key] = q
             self.sched.spawn(f"link-gen{key}", self._gen_task(key, q), party="link")
+        eager = (self.eager and request is not None and creator in self.nodes and not q
+                 and not self.queues.get((creator, "create", receiver, purpose_c)) and self.ch.flag(1, 2, "eager-now"))
         q.append(job)
+        if eager:
+            job["done"] = 1
+            self._make_pair(job, 0)
+            qk = (creator, "create", receiver, purpose_c)
+            resp, rec = self.queues[qk].pop()
+            self.bump("answered-from-inside-put")
+            self.delivered.append({"seq": self.sched.seq, "dest": creator, "role": "create", "remote": receiver,
+                                   "purpose": purpose_c, "resp": resp, "rec": rec})
+            self.trace.add("deliver-in-put", creator, "create", receiver, purpose_c, rec["seq"])
+            self.nodes[creator].on_delivery(resp, qk, rec)
         return cid
 
     def _gen_task(self, key, q: List[dict]):
@@ -151,7 +169,7 @@ class FakeLink:
                 yield ("block", lambda: bool(q) or self.stopped)
                 continue
             job = q[0]
-            for k in range(job["number"]):
+            for k in range(job.get("done", 0), job["number"]):
                 yield ("sleep", self.ch.draw(self.max_gen_delay + 1, "gen-delay"))
                 if self.lazy:
                     # a slow link: under a scheduler that picks parties at random a delay is only felt if it costs turns
@@ -229,7 +247,7 @@ class FakeLink:
                                     sequence_number=seq, purpose_id=purpose, remote_node_id=remote, goodness=good,
                                     goodness_time=tgood, bell_state=BellState(bell.value))
         return ql.ResCreateAndKeep(create_id=cid, directionality_flag=d, sequence_number=seq, purpose_id=purpose,
-                                   remote_node_id=remote, goodness=good, bell_state=BellState(bell.value), logical_qubit_id=phys,
+                                   remote_node_id=remote, goodness=good, bell_state=ql.BellState[bell.name], logical_qubit_id=phys,
                                    time_of_goodness=tgood)
 
     def _resp_m(self, cid, outcome, basis, d, seq, purpose, remote, good, bell):
@@ -238,7 +256,7 @@ class FakeLink:
                                     measurement_basis=basis, directionality_flag=d, sequence_number=seq,
                                     purpose_id=purpose, remote_node_id=remote, goodness=good, bell_state=BellState(bell.value))
         return ql.ResMeasureDirectly(create_id=cid, directionality_flag=d, sequence_number=seq, purpose_id=purpose,
-                                     remote_node_id=remote, goodness=good, bell_state=BellState(bell.value),
+                                     remote_node_id=remote, goodness=good, bell_state=ql.BellState[bell.name],
                                      measurement_outcome=outcome, measurement_basis=ql.MeasurementBasis(basis.value))
 
     # -- delivery ------------------------------------------------------------
